@@ -58,7 +58,7 @@ class C07(core.Prop):
     lean_modules = ['TddaVerif.Props.C07']
     theorems = ['TddaVerif.Props.C07.' + t for t in ['discover_total', 'type_is_column_type', 'nothing_for_absent', 'min_exact',
         'max_exact', 'length_exact', 'sign_strongest', 'maxNulls_iff', 'noDuplicates_iff', 'allowedValues_iff', 'uniques_exact']]
-    quick_n = 400
+    quick_n = 1200
     thorough_n = 20000
     rule = ('cases: SQLite tables of 1..4 columns (integer / real / text / varchar / boolean / datetime, odd column names) '
             'discovered through discover_db_table, and single columns of 0..26 rows for every recognised family (int8/int64/uint8/uint64/Int64/UInt8, '
